@@ -199,6 +199,51 @@ fn fixed_programs() -> Vec<(Program, Vec<String>)> {
         },
         vec!["f".to_string()],
     ));
+    // a data label in front of a function (called / not called)
+    v.push((
+        Program {
+            stmts: vec![
+                label("main"),
+                call("f"),
+                li(A7, 10),
+                ecall(),
+                Stmt::Directive(".data".into()),
+                label("buf"),
+                Stmt::Directive(".word 0".into()),
+                Stmt::Directive(".text".into()),
+                label("f"),
+                inst(Inst::La(T0, "buf".into())),
+                lw(A0, 0, T0),
+                ret(),
+            ],
+        },
+        vec!["f".to_string()],
+    ));
+    // a function inside another one, with two returns of its own
+    v.push((
+        Program {
+            stmts: vec![
+                label("main"),
+                call("A"),
+                call("B"),
+                call("C"),
+                li(A7, 10),
+                ecall(),
+                label("A"),
+                inst(Inst::Branch(BOp::Beq, A0, ZERO, "C".into())),
+                label("B"),
+                ret(),
+                label("C"),
+                inst(Inst::Branch(BOp::Beq, A0, ZERO, "C2".into())),
+                li(A0, 1),
+                ret(),
+                label("C2"),
+                li(A0, 2),
+                ret(),
+            ],
+        },
+        vec!["A".to_string(), "B".to_string(), "C".to_string()],
+    ));
     // several labels on one entry, data label directly before a function label
     v.push((
         Program {
@@ -272,6 +317,20 @@ pub fn check_functions(
                 if carries { "call-target-without-entry".into() } else { "entry-without-call-target".into() },
                 node_desc(cfg, n),
             ));
+        }
+    }
+    // a label that stands in front of data names that data, not the next instruction
+    {
+        let lines: Vec<&str> = src.lines().map(|l| l.trim()).collect();
+        for (i, l) in lines.iter().enumerate() {
+            let Some(name) = l.strip_suffix(':') else { continue };
+            let next = lines[i + 1..].iter().find(|x| !x.is_empty() && !x.ends_with(':'));
+            let names_data = next.map(|x| [".word", ".byte", ".half", ".asciz", ".ascii", ".string", ".space", ".dword", ".float", ".double"].iter().any(|d| x.starts_with(d))).unwrap_or(false);
+            if names_data {
+                if let Some(n) = nodes.iter().find(|n| n.labels.iter().any(|x| x.get().as_str() == name)) {
+                    return Some(("data-label-attached-to-an-instruction".into(), format!("{name} on {}", node_desc(cfg, n))));
+                }
+            }
         }
     }
     // every label a call names is a function: it heads an instruction (a program whose call
